@@ -582,7 +582,7 @@ func checkTypestate(w *World, r *Report, la *LockAnalysis) {
 				fs = append(fs, fv)
 			}
 		}
-		sort.Slice(fs, func(i, j int) bool { return fs[i].Pos() < fs[j].Pos() })
+		sort.Slice(fs, func(i, j int) bool { return posLess(fs[i].Pos(), fs[j].Pos()) })
 		for _, fv := range fs {
 			con := "table:" + w.canonField(fv) + "#insertion-sites"
 			if sites[fv] == 0 {
